@@ -193,6 +193,11 @@ class Prop:
             c.update(kw)
             if ts and tags["cls"] != "creation" and rng.random() < 0.15:   # *_like follow the session default by design
                 c["default_dtype"] = tags["default_dtype"] = "float32"
+                # give the first operand entries that float32 cannot hold (x * (1 + 2^-20), exact in float64): a silent
+                # down-cast of float64 operands to the session default then shows in the values
+                c["ts"] = json.loads(json.dumps(ts))
+                m0 = c["ts"][0]["modes"][0]
+                m0["core"] = (np.array(m0["core"], dtype=np.float64) * (1.0 + 2.0 ** -20)).tolist()
             cases.append(c)
 
         def mode_lattice(Nmax=3):
@@ -699,8 +704,8 @@ class Prop:
 
     def coq_term(self, case, res):
         """model (Coq) versus implementation for the routines modelled in Model/Tools.v, Model/Create.v"""
-        if not res.get("ok") or not res.get("outs"):
-            return None
+        if not res.get("ok") or not res.get("outs") or case.get("default_dtype") == "float32":
+            return None          # dtype cases carry non-integer entries: implementation-vs-specification only
         op = case["op"]
         ts = case.get("ts", [])
         def tail(out):
